@@ -41,8 +41,8 @@ def gt1(name, typical):
 
 
 OPTIONS = [
-    {"name": "maxfev", "lattice": [-1, 0, 1, 2, 5, 8], "ok": lambda v: v > 0},
-    {"name": "maxiter", "lattice": [-1, 0, 1, 2, 50], "ok": lambda v: v > 0},
+    {"name": "maxfev", "lattice": [-1, 0, 1, 2, 5, 8, 1000 * N + 1, 100000], "ok": lambda v: v > 0},
+    {"name": "maxiter", "lattice": [-1, 0, 1, 2, 50, 500 * N + 1, 100000], "ok": lambda v: v > 0},
     {"name": "target", "lattice": [-INF, -1.0, 0.0, 1e30], "ok": lambda v: True},
     {"name": "feasibility_tol", "lattice": [0.0, 1e-8, 1.0], "ok": lambda v: True},
     {"name": "radius_init", "lattice": [-1.0, 0.0, D, 1.0, 1e6], "ok": lambda v: v > 0.0},
